@@ -4,6 +4,7 @@ import RoaringModel.Lemmas.RoundTrip
 import RoaringModel.Lemmas.EncodeSpec
 import RoaringModel.Lemmas.CodecKernel
 import RoaringModel.Lemmas.Canonical
+import RoaringModel.Lemmas.SpecRoundTrip
 /-!
 # C05 — serialization is exact, deterministic and format-conformant (32-bit half)
 -/
@@ -63,6 +64,17 @@ theorem C05_injective (a b : Bitmap) (ha : Bitmap.WF a) (hb : Bitmap.WF b)
   rw [he, h2] at h1
   simp only [Except.ok.injEq, Prod.mk.injEq, and_true] at h1
   exact h1.symm
+
+/-- Format conformance, decoder side: the strict reference decoder (written from the format specification)
+    accepts the output — cookie, size, strictly ascending keys, declared cardinalities, an offset table with the
+    true payload positions, strictly ascending array payloads, bitset payloads of the declared cardinality — and
+    reads back exactly the value's elements, leaving what follows. -/
+theorem C05_conformant (b : Bitmap) (h : Bitmap.WF b) (rest : List Nat) :
+    Spec.decode (Bitmap.serialize b ++ rest) = some (Bitmap.elems b, rest) :=
+  specDecode_serialize b h.toCodec rest
+
+/-- the output is a byte string (every entry `< 256`), for every value -/
+theorem C05_is_bytes (b : Bitmap) : ∀ x ∈ Bitmap.serialize b, x < 256 := serialize_isBytes b
 
 /-- concrete agreement (no hypothesis): a two-chunk value -/
 example : Bitmap.serialize [{ key := 0, store := .array [1, 5, 65535] }, { key := 65535, store := .array [0] }]
